@@ -32,7 +32,7 @@ def tagged_docs(ctx, tags, n):
         return '!<' + t + '>'
     shapes = ['%s x', '%s ""', '%s [a, b]', '%s {a: b}', '- %s x\n- y', 'k: %s [1, 2]', '? %s x\n: v', '? %s [a]\n: v', '&a %s {k: v}\n', '- &a %s x\n- *a', 'base: &b %s {a: 1}\nd: {<<: *b, c: 2}',
               '<<: %s {a: 1}', '- [%s x, {k: %s y}]', '%s\n- a\n- b', '%s\na: b', '--- %s |\n  text\n', '%s [echo, hi]', '%s {args: [echo hi], kwds: {}, state: {a: 1}, listitems: [1], dictitems: {k: v}}', '%s 1+2j', '%s 12',
-              '%s {=: x}', '- %s', '{%s x: 1}', '[%s x]']
+              '%s {=: x}', '- %s', '{%s x: 1}', '[%s x]', '!!str {=: %s x}', 'k: !!int {=: %s 12}', '- !!float {a: b, =: %s 1.5}', '!!str {=: {=: %s x}}']
     for t in tags:
         for sh in rng.sample(shapes, 5):
             docs.append(sh.replace('%s', tg(t)))
